@@ -1,4 +1,358 @@
 package main
 
-// Effects is filled in by effects.go proper (placeholder until the effect engine is built).
-type Effects struct{}
+// effects.go: bottom-up write-effect summaries (DESIGN.md §3.6).
+// An effect is (root, field): root says whose object is written, abstracted to
+// a parameter index, a global, or "unknown"; writes to objects that are fresh in
+// the function (allocated there and not yet escaped) are dropped.
+
+import (
+	"fmt"
+	"go/types"
+	"sort"
+	"strings"
+
+	"golang.org/x/tools/go/ssa"
+)
+
+type Effect struct {
+	Root  string // "p0", "p1", … | "global:<name>" | "unknown" | "io"
+	Field string // "Type.Field" | "map:Type.Field" | "*" (element / unknown)
+}
+
+func (e Effect) String() string { return e.Root + "→" + e.Field }
+
+type Effects struct {
+	Writes map[Effect]bool
+}
+
+func (c *Ctx) ensureEffects() {
+	if c.effects != nil {
+		return
+	}
+	c.effects = map[*ssa.Function]*Effects{}
+	for _, fn := range c.Funcs {
+		c.effects[fn] = &Effects{Writes: map[Effect]bool{}}
+	}
+	// direct effects
+	for _, fn := range c.Funcs {
+		ef := c.effects[fn]
+		eachInstr(fn, func(in ssa.Instruction) {
+			switch x := in.(type) {
+			case *ssa.Store:
+				if _, isAlloc := x.Addr.(*ssa.Alloc); isAlloc {
+					return // local cell
+				}
+				root := c.rootClass(fn, x.Addr)
+				if root == "fresh" {
+					return
+				}
+				ef.Writes[Effect{root, addrField(x.Addr)}] = true
+			case *ssa.MapUpdate:
+				root := c.rootClass(fn, x.Map)
+				if root == "fresh" {
+					return
+				}
+				owner, f, _ := loadedField(x.Map)
+				fld := "map:*"
+				if f != nil {
+					fld = "map:" + fieldKey(owner, f)
+				}
+				if isZeroSizedOrTrue(x.Value) {
+					fld = "mapset:" + strings.TrimPrefix(fld, "map:")
+				}
+				ef.Writes[Effect{root, fld}] = true
+			case ssa.CallInstruction:
+				com := x.Common()
+				if bi, ok := com.Value.(*ssa.Builtin); ok && bi.Name() == "delete" {
+					root := c.rootClass(fn, com.Args[0])
+					if root == "fresh" {
+						return
+					}
+					owner, f, _ := loadedField(com.Args[0])
+					fld := "map:*"
+					if f != nil {
+						fld = "map:" + fieldKey(owner, f)
+					}
+					ef.Writes[Effect{root, fld}] = true
+					return
+				}
+				cal := com.StaticCallee()
+				if cal != nil && cal.Pkg != nil {
+					switch cal.Pkg.Pkg.Path() {
+					case "fmt":
+						if strings.HasPrefix(cal.Name(), "Fprint") && len(com.Args) > 0 {
+							root := c.rootClass(fn, com.Args[0])
+							if root != "fresh" {
+								ef.Writes[Effect{root, "io:writer"}] = true
+							}
+						}
+						if strings.HasPrefix(cal.Name(), "Print") {
+							ef.Writes[Effect{"io", "stdout"}] = true
+						}
+					case "os", "io/ioutil":
+						ef.Writes[Effect{"io", cal.Name()}] = true
+					}
+				}
+				if com.IsInvoke() && (com.Method.Name() == "Write" || com.Method.Name() == "WriteString") {
+					root := c.rootClass(fn, com.Value)
+					if root != "fresh" {
+						ef.Writes[Effect{root, "io:writer"}] = true
+					}
+				}
+				if cal != nil && cal.Pkg != nil && cal.Pkg.Pkg.Path() == "io" && cal.Name() == "WriteString" && len(com.Args) > 0 {
+					root := c.rootClass(fn, com.Args[0])
+					if root != "fresh" {
+						ef.Writes[Effect{root, "io:writer"}] = true
+					}
+				}
+			}
+		})
+	}
+	// propagate through calls to a fixpoint
+	g := c.Graph()
+	for changed, iter := true, 0; changed && iter < 40; iter++ {
+		changed = false
+		for _, fn := range c.Funcs {
+			ef := c.effects[fn]
+			eachInstr(fn, func(in ssa.Instruction) {
+				ci, ok := in.(ssa.CallInstruction)
+				if !ok {
+					return
+				}
+				var callees []*ssa.Function
+				if f := ci.Common().StaticCallee(); f != nil {
+					callees = []*ssa.Function{f}
+				} else if n := g.Nodes[fn]; n != nil {
+					for _, e := range n.Out {
+						if e.Site == ci {
+							callees = append(callees, e.Callee.Func)
+						}
+					}
+				}
+				for _, cal := range callees {
+					ce := c.effects[cal]
+					if ce == nil {
+						continue
+					}
+					actual := actualArgs(ci)
+					for w := range ce.Writes {
+						nw := w
+						if strings.HasPrefix(w.Root, "p") {
+							var idx int
+							fmt.Sscanf(w.Root, "p%d", &idx)
+							if idx < len(actual) {
+								nw.Root = c.rootClass(fn, actual[idx])
+							} else {
+								nw.Root = "unknown"
+							}
+						} else if strings.HasPrefix(w.Root, "free") {
+							nw.Root = "unknown"
+							// closure free variable: bound at MakeClosure in the parent; treat as parent's local unless it is a param
+						}
+						if nw.Root == "fresh" {
+							continue
+						}
+						if !ef.Writes[nw] {
+							ef.Writes[nw] = true
+							changed = true
+						}
+					}
+				}
+			})
+		}
+	}
+}
+
+func actualArgs(ci ssa.CallInstruction) []ssa.Value {
+	com := ci.Common()
+	if com.IsInvoke() {
+		return append([]ssa.Value{com.Value}, com.Args...)
+	}
+	return com.Args
+}
+
+// rootClass abstracts the object an address/value belongs to.
+func (c *Ctx) rootClass(fn *ssa.Function, v ssa.Value) string {
+	class := ""
+	merge := func(s string) {
+		switch {
+		case class == "" || class == s:
+			class = s
+		case class == "fresh":
+			class = s
+		case s == "fresh":
+		default:
+			class = "unknown"
+		}
+	}
+	backSlice(v, func(x ssa.Value) bool {
+		switch y := x.(type) {
+		case *ssa.Parameter:
+			merge(fmt.Sprintf("p%d", paramIndex(fn, y)))
+			return false
+		case *ssa.FreeVar:
+			merge("unknown")
+			return false
+		case *ssa.Global:
+			merge("global:" + y.Name())
+			return false
+		case *ssa.Alloc:
+			if isStructPtr(y.Type()) || isArrayPtr(y.Type()) {
+				merge("fresh")
+				return false
+			}
+			// cell: follow stores (backSlice does); if it has no stores it is a fresh zero value
+			has := false
+			for _, r := range *y.Referrers() {
+				if st, ok := r.(*ssa.Store); ok && st.Addr == y {
+					has = true
+				}
+			}
+			if !has {
+				merge("fresh")
+				return false
+			}
+			return true
+		case *ssa.MakeMap, *ssa.MakeSlice, *ssa.MakeChan:
+			merge("fresh")
+			return false
+		case *ssa.Call:
+			cal := y.Call.StaticCallee()
+			if bi, ok := y.Call.Value.(*ssa.Builtin); ok && bi.Name() == "append" {
+				return true // backSlice walks the arguments
+			}
+			if cal != nil && c.isRepoFn(cal) {
+				if idx := c.wrapperOfParam(cal); idx >= 0 && idx < len(y.Call.Args) {
+					merge(c.rootClass(fn, y.Call.Args[idx]))
+					return false
+				}
+			}
+			if cal != nil && c.isRepoFn(cal) && c.isConstructor(cal) {
+				merge("fresh")
+			} else if cal != nil && cal.Pkg != nil && cal.Pkg.Pkg.Path() == "reflect" {
+				return true
+			} else {
+				merge("unknown")
+			}
+			return false
+		case *ssa.Const:
+			return false
+		}
+		return true
+	})
+	if class == "" {
+		class = "unknown"
+	}
+	return class
+}
+
+func isArrayPtr(t types.Type) bool {
+	p, ok := t.Underlying().(*types.Pointer)
+	if !ok {
+		return false
+	}
+	_, ok = p.Elem().Underlying().(*types.Array)
+	return ok
+}
+
+// addrField names the field (or element) an address designates.
+func addrField(addr ssa.Value) string {
+	switch x := addr.(type) {
+	case *ssa.FieldAddr:
+		owner, f, _ := fieldOf(x)
+		return fieldKey(owner, f)
+	case *ssa.IndexAddr:
+		if owner, f, _ := loadedField(x.X); f != nil {
+			return "elem:" + fieldKey(owner, f)
+		}
+		return "elem:*"
+	}
+	return "*"
+}
+
+// WritesOf returns the sorted effect list of fn.
+func (c *Ctx) WritesOf(fn *ssa.Function) []Effect {
+	c.ensureEffects()
+	ef := c.effects[fn]
+	if ef == nil {
+		return nil
+	}
+	var out []Effect
+	for w := range ef.Writes {
+		out = append(out, w)
+	}
+	sort.Slice(out, func(i, j int) bool { return out[i].String() < out[j].String() })
+	return out
+}
+
+var wrapperCache = map[*ssa.Function]int{}
+
+// wrapperOfParam: fn returns its parameter i, or a fresh object that holds parameter i (a wrapper such as
+// indent.NewWriter); returns i, or -1.
+func (c *Ctx) wrapperOfParam(fn *ssa.Function) int {
+	if v, ok := wrapperCache[fn]; ok {
+		return v
+	}
+	wrapperCache[fn] = -1
+	if fn.Blocks == nil || fn.Signature.Results().Len() != 1 {
+		return -1
+	}
+	idx := -1
+	okAll := true
+	strip := func(v ssa.Value) ssa.Value {
+		for {
+			switch x := v.(type) {
+			case *ssa.MakeInterface:
+				v = x.X
+				continue
+			case *ssa.ChangeInterface:
+				v = x.X
+				continue
+			}
+			return v
+		}
+	}
+	eachInstr(fn, func(in ssa.Instruction) {
+		r, ok := in.(*ssa.Return)
+		if !ok || len(r.Results) != 1 {
+			return
+		}
+		v := strip(r.Results[0])
+		switch x := v.(type) {
+		case *ssa.Parameter:
+			i := paramIndex(fn, x)
+			if idx >= 0 && idx != i {
+				okAll = false
+			}
+			idx = i
+		case *ssa.Alloc:
+			found := false
+			for _, ref := range *x.Referrers() {
+				if fa, okf := ref.(*ssa.FieldAddr); okf {
+					for _, rr := range *fa.Referrers() {
+						if st, oks := rr.(*ssa.Store); oks {
+							if p, okp := strip(st.Val).(*ssa.Parameter); okp {
+								i := paramIndex(fn, p)
+								if idx >= 0 && idx != i {
+									continue
+								}
+								idx = i
+								found = true
+							}
+						}
+					}
+				}
+			}
+			if !found {
+				okAll = false
+			}
+		default:
+			okAll = false
+		}
+	})
+	if !okAll {
+		idx = -1
+	}
+	wrapperCache[fn] = idx
+	return idx
+}
